@@ -4,7 +4,7 @@
    it needs appear as explicit premises.  Proofs are in proofs/Algebra.v. *)
 From Coq Require Import ZArith List Ring Ring_theory.
 From TS Require Import Algebra.
-From TS Require AMHL AMHLLink.
+From TS Require AMHL AMHLLink AMHLSamples.
 Import ListNotations.
 
 (* ---- the definitions the statements are about ---- *)
@@ -166,6 +166,14 @@ Check C18_final_key_opens_last_lock.
 Check C18_release_left_computes.
 Check C18_release_chain.
 Check C18_cascade_chain.
+(* the secrets of a chain are a function of (seed, index): exactly n of them, the i-th is sample(seed, i), and a shorter chain from
+   the same seed has the first n secrets of a longer one -- for every oracle (no memory between set-ups) *)
+Definition C18_samples_exactly_n := @AMHLSamples.samples_length.
+Definition C18_samples_ith_is_sample_of_seed_and_index := @AMHLSamples.samples_nth.
+Definition C18_shorter_chain_same_seed_is_prefix := @AMHLSamples.samples_prefix.
+Definition C18_setup_hands_out_n_secrets_and_n_points := @AMHLSamples.setup_lengths.
+Check C18_samples_exactly_n.
+Check C18_shorter_chain_same_seed_is_prefix.
 (* non-vacuity: all hypotheses hold in a five-element field, with a concrete run for n = 3 *)
 Definition C18_link_hypotheses_satisfiable := (AMHLLink.F5_setup_computes, AMHLLink.F5_check_setup_ok, AMHLLink.F5_final_key_ok, AMHLLink.F5_release_chain, AMHLLink.F5_cascade_chain, AMHLLink.F5_concrete_run).
 
@@ -187,3 +195,7 @@ Print Assumptions C18_amhl_wrong_hop_iff.
 Print Assumptions C18_amhl_points_Z.
 Print Assumptions C18_amhl_cascade_Z.
 Print Assumptions C18_amhl_concrete_Z.
+Print Assumptions C18_samples_exactly_n.
+Print Assumptions C18_samples_ith_is_sample_of_seed_and_index.
+Print Assumptions C18_shorter_chain_same_seed_is_prefix.
+Print Assumptions C18_setup_hands_out_n_secrets_and_n_points.
